@@ -64,6 +64,14 @@ CHECKS = {
                      "streams, prefix exactness + progress (resync / wait / close) for wrong lengths.",
                 ref="4 C05", note=NODE_NOTE + "; only the queue shim is engaged here (no node), poll time-outs "
                 "scaled 5 s -> 4 ms."),
+    "C06": dict(cat="exploration", tech="lockstep node harness (virtual transport + clock) with a reference model of "
+                "the capabilities exchange; outputs compared after every input event",
+                text="The real Node runs with its real threads on socketpair-backed shim sockets, a gated select and a "
+                     "virtual clock. All event sequences to depth 3 (thorough 4) over the 14-letter alphabet of the "
+                     "property on inbound and outbound connections, random sequences to depth 10, directed deadline "
+                     "timelines, x 4 configurations; after each event the frames written, application deliveries, "
+                     "socket state, CEA/CER content and routing availability are compared with the model.",
+                ref="4 C06", note=NODE_NOTE + "; behaviour after a second CER is unspecified and not judged."),
 }
 
 NOT_YET = "check not built yet in this round (planned in DESIGN.md section 4); no claim is made"
